@@ -33,7 +33,8 @@ var rec = ev.New("C11")
 // Node is one box of the generated tree.
 type Node struct {
 	Type     string `json:"t"`
-	Role     string `json:"role,omitempty"` // canon | cmt1..cmt4 | xpacket | preview | prvw | cncv | ctbo | hdlr | pitm | "" (opaque)
+	IlocLen  *int   `json:"iloc_len,omitempty"` // (mdatitem, malformed variants) the length the iloc box states for the item instead of its real one
+	Role     string `json:"role,omitempty"`     // canon | cmt1..cmt4 | xpacket | preview | prvw | cncv | ctbo | hdlr | pitm | "" (opaque)
 	Full     bool   `json:"full,omitempty"`
 	Large    bool   `json:"large,omitempty"` // 64-bit size header
 	Len      int    `json:"len"`             // opaque payload bytes (position coded) in addition to the role's fixed fields
@@ -234,6 +235,9 @@ func (c Case) layout() ([]byte, []*placed, []*placed) {
 	if iloc != nil && item != nil {
 		binary.BigEndian.PutUint32(out[iloc.cbStart:], uint32(item.cbStart))
 		binary.BigEndian.PutUint32(out[iloc.cbStart+4:], uint32(item.cbEnd-item.cbStart))
+		if item.n.IlocLen != nil {
+			binary.BigEndian.PutUint32(out[iloc.cbStart+4:], uint32(*item.n.IlocLen))
+		}
 	}
 	return out, all, tops
 }
@@ -668,6 +672,13 @@ func genMal(rt *rapid.T) Case {
 					}
 				}
 				break
+			}
+		}
+	case 3: // an Exif item whose stated length is too short for the item prefix, the TIFF header or a directory (or far too long)
+		for i := range c.Top {
+			if c.Top[i].Role == "mdatitem" {
+				l := rapid.SampledFrom([]int{0, 4, 10, 12, 17, 18, 20, 35, 1 << 20}).Draw(rt, "iloc-len")
+				c.Top[i].IlocLen = &l
 			}
 		}
 	case 2: // a preview box whose first child is not the PRVW box
